@@ -122,8 +122,9 @@ def _block_rows(b, xlsx):
     num = (lambda v: float(v)) if xlsx else (lambda v: repr(float(v)))
     if "t" in b:
         rows = [["**" + b["t"]], ["all"], ["a", "b"], ["m", "text"]]
+        pad = "p" * b.get("pad", 0)
         for i in range(b["rows"]):
-            rows.append([num(i + 1), "x%d" % i if xlsx else CSV_TEXTS[i % len(CSV_TEXTS)] + str(i)])
+            rows.append([num(i + 1), ("x%d" % i if xlsx else CSV_TEXTS[i % len(CSV_TEXTS)] + str(i)) + pad])
         if b.get("bad"):
             rows[-1][0] = "zz"
         return rows
@@ -295,7 +296,7 @@ GAP_KINDS = ["missing", "dup", "txt", "loaderror"]
 
 
 def gen_scenario(rng, api, inject, pat_mode=None, gapkind=None, host_empty=None, bom=None, big_rows=None,
-                 broken=None):
+                 broken=None, big_bytes=None, suffix=None):
     """gapkind (load_files only): the k-th include names a file that does not exist / that was already read / with
     an unsupported extension / that the loader refuses (LoadError): the failure is raised by queued_load between
     two files, not while a block is produced"""
@@ -388,12 +389,31 @@ def gen_scenario(rng, api, inject, pat_mode=None, gapkind=None, host_empty=None,
             xl = [f]
         if xl:
             rng.choice(xl)["broken"] = broken
-    if big_rows:
-        # one table of the first file that is read gets a row count from the size ladder
+    if big_rows or big_bytes:
+        # one table of the first file that is read gets a row count from the size ladder / makes the file that many
+        # bytes long (wide text cells keep the row count affordable)
         tabs = [b for f in files for sh in f["sheets"] for b in sh["blocks"]
                 if "t" in b and _sheet_is_read(pattern, f, sh["name"])]
-        if tabs:
+        if tabs and big_bytes:
+            tabs[0]["pad"] = 240
+            tabs[0]["rows"] = big_bytes // 250 + 1
+        elif tabs:
             tabs[0]["rows"] = big_rows
+    # spelling of the file-name suffix: names that differ only in letter case are different names; FileReader and
+    # the folder pattern of load_files ignore the case of the suffix, read_excel / read_csv take any name
+    for f in files:
+        spell = suffix if suffix is not None else rng.choice(
+            ["lower", "lower", "lower", "UPPER", "Title"] + (["xlsm"] if api.startswith("read_excel") else []))
+        stem, ext = f["name"].rsplit(".", 1)
+        new = {"lower": ext, "UPPER": ext.upper(), "Title": ext.title(), "xlsm": "xlsm" if ext == "xlsx" and
+               api.startswith("read_excel") else ext}[spell]
+        if new != ext:
+            old_name, f["name"] = f["name"], stem + "." + new
+            for g in files:
+                for sh in g["sheets"]:
+                    for b in sh["blocks"]:
+                        if b.get("d") == "include":
+                            b["lines"] = [f["name"] if ln == old_name else ln for ln in b["lines"]]
     has_include = any(b.get("d") == "include" for f in files for sh in f["sheets"] for b in sh["blocks"])
     folder = api == "load_files" and not has_include and rng.random() < 0.5
     return {"api": api, "inject": inject, "target": target, "files": files, "roots": roots, "pattern": pattern,
@@ -628,6 +648,9 @@ def _trackers():
         def add_issue(self, input_issue):
             self.got.append(input_issue)
 
+        def __len__(self):                     # falsy while empty: `if issue_tracker:` must not be how it is tested
+            return len(self.got)
+
         @property
         def is_ok(self):
             return not self.got
@@ -676,6 +699,8 @@ def make_reader(sc, paths, obs):
         else:
             with open(p) as fh:
                 src = stream = io.StringIO(fh.read())
+        if not sc.get("str_path", True):
+            return read_csv(src, SEP, **kw), stream          # the separator given positionally
         return read_csv(src, **kw), stream
     if mode == "path":
         src = p
@@ -1107,7 +1132,8 @@ def run(tier, seed, model_ok, translator, search=False):
                 "CSV files starting with a UTF-8 / UTF-16 / UTF-32 byte order mark; workbooks that cannot be opened or "
                 "read (zip that is not a workbook, zero bytes, truncated, damaged sheet part) as read_excel source and as "
                 "load_files root / include; a size ladder (rows 63..20000 for readers, 1000..131073 value cells for "
-                "writers). Descriptors: every entry of /proc/self/fd that was not there before the call. Non-trivial: >= 2 blocks (readers), >= 2 tables and a failure (writers).")
+                "writers; CSV files of >= 1 MiB x an error in a block); file-name suffixes in lower / upper / title case and "
+                ".xlsm x every unreadable-workbook kind. Descriptors: every entry of /proc/self/fd that was not there before the call. Non-trivial: >= 2 blocks (readers), >= 2 tables and a failure (writers).")
     rng = make_rng(seed, "C19")
     full = tier == "thorough"
     per_api = 40 if full else 8
@@ -1141,9 +1167,16 @@ def run(tier, seed, model_ok, translator, search=False):
         if full:
             broken_runs = [(api, k) for k in BROKEN_KINDS for api in
                            ("read_excel:path", "read_excel:file", "read_excel:bytesio", "load_files", "load_files")]
-        for api, kind in broken_runs:
-            sc = gen_scenario(rng, api, "none", rng.choice(["nopattern", "all"]), broken=kind)
-            out.count("broken_workbook:%s:%s" % (api.split(":")[0], kind))
+        spellings = ["lower", "UPPER", "Title"]
+        for bi, (api, kind) in enumerate(broken_runs):
+            # ... crossed with the spelling of the suffix (every kind under every spelling by path and through load_files)
+            for spell in (spellings if api in ("read_excel:path", "load_files") else [spellings[(bi + seed) % 3]]):
+                sc = gen_scenario(rng, api, "none", rng.choice(["nopattern", "all"]), broken=kind, suffix=spell)
+                out.count("broken_workbook:%s:%s:suffix_%s" % (api.split(":")[0], kind, spell))
+                run_scenario(sc, rng, full, out, ops, pend, model_ok)
+        if full or seed % 2 == 0:
+            sc = gen_scenario(rng, "read_excel:path", "none", "nopattern", broken=BROKEN_KINDS[seed % 4], suffix="xlsm")
+            out.count("broken_workbook:read_excel:%s:suffix_xlsm" % BROKEN_KINDS[seed % 4])
             run_scenario(sc, rng, full, out, ops, pend, model_ok)
         # CSV files that start with a byte order mark (UTF-8: readable, the mark lands in the first cell; UTF-16 /
         # UTF-32: the platform codec fails at the first line — an error exit with the file open), by path, through
@@ -1165,6 +1198,18 @@ def run(tier, seed, model_ok, translator, search=False):
             size_runs = [("read_csv:path", 1025), ("read_csv:path", 4097), ("read_csv:path", 8193),
                          ("read_excel:path", SIZE_LADDER[seed % 9]), ("read_excel:path", 1025),
                          ("load_files", 4097), ("read_csv:stringio", SIZE_LADDER[(seed + 3) % len(SIZE_LADDER)])]
+        # size in BYTES crossed with the way the reading ends, in particular an error in a block while the exception is held
+        byte_runs = [("read_csv:path", 1 << 20, "cell"), ("load_files", 1 << 20, "cell")]
+        if full:
+            byte_runs += [("read_csv:path", 1 << 20, i) for i in ("none", "tracker_raise", "filter_raise", "tracker_collect")]
+            byte_runs += [("read_csv:path", 8 << 20, "cell"), ("read_csv:file", 1 << 20, "cell"),
+                          ("load_files", 1 << 20, "tracker_raise")]
+        for api, nbytes, inject in byte_runs:
+            sc = gen_scenario(rng, api, inject, "nopattern", big_bytes=nbytes + nbytes // 10, suffix="lower")
+            if api == "load_files":
+                sc["folder"] = False
+            out.count("size_ladder_bytes:%s:%dMiB:%s" % (api.split(":")[0], nbytes >> 20, sc["inject"]))
+            run_scenario(sc, rng, False, out, ops, pend, model_ok)
         for api, nrows in size_runs:
             sc = gen_scenario(rng, api, rng.choice(["none", "cell"]), "all" if api != "read_csv:path" else None,
                               big_rows=nrows)
